@@ -348,6 +348,7 @@ def run(ctx):
     _run_rules(ctx)
     from .. import boundaries
     boundaries.check(ctx, 'C19.RB', 'C19')
+    boundaries.check_amounts(ctx, 'C19.RA', 'C19')
     boundaries.check_codes(ctx, 'C19.RE', 'C19')
     boundaries.check_writes(ctx, 'C19.RW', 'C19')
     from . import C14
